@@ -1,0 +1,9 @@
+//go:build verif
+
+package fasthttp
+
+// VerifC04CloseBodyStreamErr calls the unexported Response.closeBodyStream(wErr): the path taken when passing a streamed
+// response body on (e.g. writing it to another connection) failed with wErr.  Used by the C04 correspondence harness.
+func VerifC04CloseBodyStreamErr(resp *Response, wErr error) error {
+	return resp.closeBodyStream(wErr)
+}
